@@ -139,6 +139,7 @@ func (c *fctx) checkOrder(n ast.Node) {
 					}
 				}
 			}
+			c.t.outAssigned15(x, func(o types.Object) { written[o], calls = true, append(calls, x) }) // [ext:T15]
 		}
 		return true
 	})
@@ -166,7 +167,10 @@ func (c *fctx) taintCalls(n ast.Node, en *env) *env {
 	ast.Inspect(n, func(m ast.Node) bool {
 		if x, ok := m.(*ast.CallExpr); ok {
 			if fn, _ := c.t.calleeOf(x); fn != nil {
-				for _, a := range x.Args {
+				for i, a := range x.Args {
+					if c.t.notKept15(fn, i) { // [ext:T15] an out-parameter of a callee that can neither return nor store the slice
+						continue
+					}
 					if tv, ok := c.t.info.Types[a]; ok && tv.Type != nil {
 						if _, isSlice := tv.Type.Underlying().(*types.Slice); isSlice {
 							if key, ok := c.aliasSource(a, en); ok && key != "?call" {
@@ -381,7 +385,7 @@ func (c *fctx) stmt(s ast.Stmt, en *env, lc *lctx, next kont) string {
 	case *ast.IfStmt:
 		return c.ifStmt(x, en, lc, next)
 	case *ast.SwitchStmt: // [seq] tagless switch -> if / else-if chain
-		return c.switchStmt(x, en, lc, next)
+		return c.switch15(x, en, lc, next) // [ext:T15] a tag becomes `tag == e` conditions, then c.switchStmt
 	case *ast.ForStmt:
 		return c.forStmt(x, en, lc, next)
 	case *ast.RangeStmt:
@@ -400,6 +404,7 @@ func (c *fctx) retTerm(en *env, vs []string) string {
 	for _, g := range c.t.ordered20(c.fi.gwrites) { // [ext:T20] written package-level state is returned
 		parts = append(parts, c.globalName20(g, en, c.fi.decl))
 	}
+	parts = append(parts, c.outNames15(en)...) // [ext:T15] slice parameters written in place are returned
 	if len(parts) == 0 {
 		return tuple(vs)
 	}
@@ -465,7 +470,7 @@ func (c *fctx) assign(x *ast.AssignStmt, en *env, next kont) string {
 			en3 := en2
 			if rhs != nil {
 				en3 = c.noteAlias(lhs, rhs[i], en2)
-			} else if k := c.sliceKey(lhs, en2); k != "" && t.exprType(lhs).k == kSlice {
+			} else if k := c.sliceKey(lhs, en2); k != "" && c.lhsIsSlice15(lhs, en2) { // [ext:T15] `a, ok := f()` with ok redeclared: go/types records no type for it
 				en3 = en2.share(k)
 			}
 			return c.assignTo(lhs, vs[i], en2, func() string { return rec(i+1, en3) })
@@ -759,7 +764,7 @@ func (t *Translator) emitFunc(fi *funcInfo) string {
 		var name string
 		en, name = c.declare(en, p, g)
 		params = append(params, fmt.Sprintf("(%s : %s)", name, g.coq()))
-		if g.k == kSlice {
+		if g.k == kSlice && !fi.isOut15(i) { // [ext:T15] a slice parameter written in place is returned instead
 			en = en.share(name) // the caller still holds the array
 		}
 	}
@@ -775,6 +780,10 @@ func (t *Translator) emitFunc(fi *funcInfo) string {
 	for _, g := range t.ordered20(fi.gwrites) { // [ext:T20]
 		stateT = append(stateT, g.ty.coq())
 	}
+	for range fi.outs { // [ext:T15]
+		stateT = append(stateT, "list Z")
+	}
+	t.checkOuts15(fi) // [ext:T15]
 	if len(stateT) > 0 {
 		if len(rts) > 0 {
 			stateT = append(stateT, rt)
